@@ -158,9 +158,14 @@ impl Clone for MpFilterExpr { fn clone(&self) -> (r: Self) ensures r == *self { 
 // bgpfu::RpslEvaluator::evaluate: Ok(set) or Err (unknown as-set, IRR error response, IRR unreachable, unsupported construct)
 // `asked`: ghost log of the expressions handed to the evaluator so far
 pub struct RpslEvaluator { pub last_ok: Ghost<bool>, pub asked: Ghost<Seq<u64>> }
+// the expression - including the filter-sets it refers to - contains no AS-path regular expression and no attribute match.
+// rpsl-0.1.1 src/expr/eval/mod.rs:111-112 evaluates these two kinds of literal with `todo!()`: RpslEvaluator::evaluate returns
+// a Result only for the other constructs and PANICS for these (finding F12).
+pub uninterp spec fn only_implemented_constructs(expr: MpFilterExpr) -> bool;
 impl RpslEvaluator {
     #[verifier::external_body]
     pub fn evaluate(&mut self, expr: MpFilterExpr) -> (r: Result<EvaluatedSet, EvalError>)
+        requires only_implemented_constructs(expr),                                             // OBL:C15.eval.evaluator_panics_on_unimplemented_constructs
         ensures final(self).last_ok@ == (r is Ok), final(self).asked@ == old(self).asked@.push(expr.id)
     { unimplemented!() }
 }
